@@ -252,9 +252,11 @@ fn insert_nulls(base: &[X], gaps: &[usize]) -> Vec<X> {
 
 /// (b) null transparency on one null-free base word
 fn check_transparency(word: &[u8], alpha: &[X], max_nulls: usize, ctx: &mut Ctx) {
+    check_transparency_fam("transparency", word, alpha, max_nulls, ctx)
+}
+fn check_transparency_fam(fam: &str, word: &[u8], alpha: &[X], max_nulls: usize, ctx: &mut Ctx) {
     let base = decode(word, alpha);
     let len = base.len();
-    let fam = "transparency";
     ctx.fam(fam).states += 1;
     ctx.nontrivial(fam, hash_bytes(word));
     use AggOp::*;
@@ -387,13 +389,27 @@ impl TreeSys for Fam {
         self.max_len
     }
     fn name(&self) -> String {
-        ["encodings", "transparency", "transparency-pairs", "encodings-inf"][self.kind as usize].to_string()
+        ["encodings", "transparency", "transparency-pairs", "encodings-inf", "encodings-nan-kinds", "transparency-nan-kinds"][self.kind as usize].to_string()
     }
     fn visit(&self, w: &[u8], _p: Option<&()>, ctx: &mut Ctx) {
         match self.kind {
             0 => check_encodings(w, &self.alpha, ctx),
             1 => check_transparency(w, &self.alpha, self.max_nulls, ctx),
             3 => check_encodings_x("encodings-inf", w, decode(w, &self.alpha), &self.alpha, ctx),
+            // every NaN is the same null: the float encoding written with the run-time NaN of x86-64 (sign bit
+            // set), a payload NaN, and both kinds mixed in one series
+            4 => {
+                if w.contains(&0) {
+                    for kind in 1..=3u8 {
+                        with_nan_kind(kind, || check_encodings_x("encodings-nan-kinds", w, decode(w, &self.alpha), &self.alpha, ctx));
+                    }
+                }
+            }
+            5 => {
+                for kind in [1u8, 3] {
+                    with_nan_kind(kind, || check_transparency_fam("transparency-nan-kinds", w, &self.alpha, self.max_nulls, ctx));
+                }
+            }
             _ => check_transparency2(w, &self.alpha, ctx),
         }
     }
@@ -407,6 +423,8 @@ fn main() {
     let tr2 = Fam { alpha: vec![Some(0.0), Some(1.0), Some(3.0)], max_len: run.pick(3, 5), kind: 2, max_nulls: 2 };
     // infinities are valid observations under both encodings (only NaN / None are null)
     let enc_inf = Fam { alpha: vec![None, Some(f64::NEG_INFINITY), Some(0.0), Some(1.0), Some(f64::INFINITY)], max_len: run.pick(4, 5), kind: 3, max_nulls: 0 };
+    let enc_nan = Fam { alpha: vec![None, Some(-1.0), Some(0.0), Some(2.0)], max_len: run.pick(4, 6), kind: 4, max_nulls: 0 };
+    let tr_nan = Fam { alpha: vec![Some(-2.0), Some(0.0), Some(3.0)], max_len: run.pick(3, 5), kind: 5, max_nulls: 2 };
     if let Some(path) = &run.replay {
         let stored = load_replay(path).unwrap_or_else(|e| {
             eprintln!("MACHINERY-ERROR: {e}");
@@ -419,6 +437,8 @@ fn main() {
             "encodings-inf" => check_encodings_x("encodings-inf", &word, decode(&word, &enc_inf.alpha), &enc_inf.alpha, &mut ctx),
             "encodings-long" => check_encodings_x("encodings-long", &[], word_from_json(&stored["case"]["series"]), &enc.alpha, &mut ctx),
             "transparency" => check_transparency(&word, &tr.alpha, 3, &mut ctx),
+            "encodings-nan-kinds" => enc_nan.visit(&word, None, &mut ctx),
+            "transparency-nan-kinds" => tr_nan.visit(&word, None, &mut ctx),
             _ => check_transparency2(&word, &tr2.alpha, &mut ctx),
         }
         std::process::exit(finish_replay(&run, &stored, ctx));
@@ -427,6 +447,8 @@ fn main() {
     total.merge(explore_tree(&enc_inf, run.threads));
     total.merge(explore_tree(&tr, run.threads));
     total.merge(explore_tree(&tr2, run.threads));
+    total.merge(explore_tree(&enc_nan, run.threads));
+    total.merge(explore_tree(&tr_nan, run.threads));
     total.merge(encodings_long(!run.quick(), run.threads, &enc.alpha));
     total.sample(json!({"relation": "encoding", "entry": "ts_vstd", "series_f64": "[NaN, 1.0, 3.0]", "series_option": "[None, Some(1.0), Some(3.0)]", "outputs_equal_after_decoding": true}));
     total.sample(json!({"relation": "transparency", "op": "vskew(0)", "base": [-2, 0, 3], "with_nulls": [null, -2, 0, null, 3], "equal": true}));
